@@ -45,6 +45,9 @@ const (
 	FaultGeneric   = "generic"
 	FaultNotFound  = "notfound"
 	FaultCancelled = "cancelled"
+	// FaultDuplicate: what a storage that refuses to overwrite answers (types.DuplicateRecordError, in
+	// pointer form); outside FaultKinds because only the fault-position engine sweeps it
+	FaultDuplicate = "duplicate"
 )
 
 var FaultKinds = []string{FaultGeneric, FaultNotFound, FaultCancelled}
@@ -58,6 +61,8 @@ func faultErr(kind string) error {
 		return fmt.Errorf("injected: %w", nodeenrollment.ErrNotFound)
 	case FaultCancelled:
 		return context.Canceled
+	case FaultDuplicate:
+		return fmt.Errorf("injected: %w", new(types.DuplicateRecordError))
 	}
 	return ErrInjected
 }
